@@ -22,7 +22,7 @@ WITNESSES = {'quick': ['version-changed-reexecuted', 'json-equal-nothing-reexecu
              'thorough': ['version-changed-reexecuted', 'json-equal-nothing-reexecuted']}
 
 NAMES = ['outer', 'mid', 'leaf']
-SHAPES = ['absent', 'none', 'bool', 'int', 'float', 'str', 'nested', 'dict-ab', 'dict-ba']
+SHAPES = ['absent', 'none', 'bool', 'int', 'float', 'str', 'nested', 'dict-ab', 'dict-ba', 'empty']
 
 
 def families(tier):
@@ -49,6 +49,8 @@ def version(eng, tag, shapes):
         return ('val', 'v1' if eng.choose('vstr' + tag, 2) else 'v2')
     if k == 'nested':
         return ('val', [eng.fresh_int('va' + tag), {'k': eng.fresh_int('vk' + tag)}])
+    if k == 'empty':
+        return ('val', [[], {}, ''][eng.choose('vempty' + tag, 3)])
     a, b = eng.fresh_int('vda' + tag), eng.fresh_int('vdb' + tag)
     return ('val', {'a': a, 'b': b} if k == 'dict-ab' else {'b': b, 'a': a})
 
